@@ -204,6 +204,27 @@ def judge(case, acc):
         fn = lambda: t.print(fields, children, theme)  # noqa: E731
         rp = lambda: repr(t)  # noqa: E731
         tasks = [t]
+    elif target == 'empty':
+        # a sheet that shows no task is still a sheet: the header line, nothing else
+        kind_ = case['pick'][0] % 4
+        leaf = next((x for x in tasks if not len(x.children)), tasks[0])
+        free = next((x for x in tasks if not len(x.predecessors)), None)
+        given = []
+        if kind_ == 0:
+            ew = WBS()
+            fn = lambda: ew.print(fields, children, theme)  # noqa: E731
+            rp = lambda: repr(ew)  # noqa: E731
+        elif kind_ == 1 or (kind_ == 2 and free is None):
+            fn = lambda: leaf.children.print(fields, children, theme)  # noqa: E731
+            rp = lambda: repr(leaf.children)  # noqa: E731
+        elif kind_ == 2:
+            fn = lambda: free.predecessors.print(fields, children, theme)  # noqa: E731
+            rp = lambda: repr(free.predecessors)  # noqa: E731
+        else:
+            nolist = w.tasks(lambda x: False)
+            fn = lambda: nolist.print(fields, children, theme)  # noqa: E731
+            rp = lambda: repr(nolist)  # noqa: E731
+        acc.count('empty_sheets')
     elif target == 'wbs':
         given = list(w.roots)
         fn = lambda: w.print(fields, children, theme)  # noqa: E731
@@ -317,7 +338,7 @@ def gen_case(rnd):
     theme = rnd.choice([None, {'header_color': '91m', 'level_colors': ['94m'] * rnd.randint(1, 7)},
                         {'header_color': None, 'level_colors': [rnd.choice([None, '96m']) for _ in range(rnd.randint(1, 4))]}])
     return {'kind': 'sheet', 'sched': sc, 'names': names, 'notes': notes, 'ext_links': ext, 'fields': fields,
-            'children': rnd.random() < 0.65, 'theme': theme, 'target': rnd.choice(['wbs', 'task', 'list']),
+            'children': rnd.random() < 0.65, 'theme': theme, 'target': rnd.choice(['wbs', 'task', 'list'] * 5 + ['empty']),
             'pick': [rnd.randrange(50) for _ in range(rnd.randint(0, 5))] or [0], 'usage': rnd.random() < 0.4,
             'remove_branch': rnd.randrange(20) if rnd.random() < 0.25 else None, 'ext_twin': rnd.randrange(20) if ext and rnd.random() < 0.4 else None,
             'print_colors': [[rnd.randrange(20), rnd.choice(['', '93m', None])] for _ in range(rnd.randint(0, 2))] if rnd.random() < 0.3 else []}
